@@ -9,6 +9,10 @@ S1  TLC checks HotParamConc.tla exhaustively: the per-value in-flight SETS equal
     the slack K - 1 (PendCapped counts the parked admitted callers, too); CappedStrict (no slack) must be
     violated for K = 2 and the broken variant DropZero=TRUE (a cell returning to zero is removed, the record
     step skips a missing cell) must violate CounterOK for K = 1 while it passes for K = 0 (non-vacuity).
+    First use of a value: with Fresh=TRUE the counter of a value is created on demand, Lookup -> Create -> Record are
+    separate steps of up to K callers; OneObject (a value never gets a second counter object) and Conserved / CounterOK /
+    ZeroAfterDrain hold; the broken variant BothInstall=TRUE (a caller that missed the lookup installs without re-checking)
+    must violate OneObject and CounterOK (thorough: also ZeroAfterDrain) for K = 2 and pass for K = 1.
 S2  scenarios: (a) one per transition of a small bounded instance (ACTION_CONSTRAINT Emit), (b) TLC random
     simulation of a larger one, (c) seeded random histories (3 ruled resources, specific items, index /
     negative index / attachment key, argument types cycled), (d) many-goroutine stress runs.
@@ -16,6 +20,11 @@ S2  scenarios: (a) one per transition of a small bounded instance (ACTION_CONSTR
     VIEW hview), a sample of those of 4 callers, one per transition of larger K-instances, and seeded random
     histories with parked callers; replayed with the goroutine gate (a caller is parked at chain.checked while
     the main goroutine opens / exits / probes other entries).
+    (f) first use under real parallelism (free-running, there is no yield point inside the parameter cache): per round G
+    goroutines released by a spin barrier request a value the rule has never seen (fresh value per round, many rounds;
+    controls: value already known / entries live / unruled resource / missing argument); the entries are held (probe with them
+    live, exit all, probe: exactly thr admitted again) or exited by their own goroutines; the outcomes of a burst are judged
+    by the relation the design allows, the probes at quiescence exactly.
     Every scenario ends with a drain and a post-drain admission probe per value (gated ones: first every parked
     caller records and the value is probed with its entries still live).
 S3  harness/cmd/c06 replays them on the real code (hotspot.LoadRules, api.Entry(WithArgs/WithAttachments),
@@ -42,11 +51,12 @@ RULESETS = {
     'MCRules4': {'A': dict(thr=2, items={'a': 1})},
     'MCRules5': {'A': dict(thr=1, items={'b': 3})},
 }
-INVS = 'TypeOK Conserved CounterOK Capped PendCapped ZeroAfterDrain DecisionOK'
+FREE_RUNNING = ('first', 'stress')     # batches driven with real parallelism (no gate)
+INVS = 'TypeOK Conserved CounterOK Capped PendCapped ZeroAfterDrain DecisionOK OneObject'
 
 
 def mc_cfg(rules, maxops, maxlive, alias=False, res='MCRes', emit=False, inv=True, k=0, drop=False, values='MCValues', oth='MCOth',
-           view='view', nonone=False):
+           view='view', nonone=False, fresh=False, both=False):
     """inv: True = all invariants, False = none, or the names to check"""
     ac = (['NoNone'] if nonone else []) + (['Emit'] if emit else [])
     return """SPECIFICATION Spec
@@ -60,11 +70,14 @@ CONSTANTS
   Alias = %s
   K = %d
   DropZero = %s
+  Fresh = %s
+  BothInstall = %s
 VIEW %s
 %s
 %s
 CHECK_DEADLOCK FALSE
-""" % (res, oth, values, rules, maxlive, maxops, 'TRUE' if alias else 'FALSE', k, 'TRUE' if drop else 'FALSE', view,
+""" % (res, oth, values, rules, maxlive, maxops, 'TRUE' if alias else 'FALSE', k, 'TRUE' if drop else 'FALSE',
+       'TRUE' if fresh else 'FALSE', 'TRUE' if both else 'FALSE', view,
        'INVARIANTS ' + (INVS if inv is True else inv) if inv else '',
        'ACTION_CONSTRAINT ' + ' '.join(ac) if ac else '')
 
@@ -261,6 +274,84 @@ def stress_scenario(c, tr, g, n):
     return s
 
 
+def fresh_names(n):
+    """n abstract value names whose concrete values are pairwise different for every argument type (harness/hpx gives an
+    unknown name the slot 100 + hash % 1000; two names with the same slot would be the same int / float / ... value)"""
+    out, slots, i = [], set(), 0
+    assert n <= 900
+    while len(out) < n:
+        name, h = 'f%d' % i, 0
+        i += 1
+        for ch in name:
+            h = h * 31 + ord(ch)
+        if h % 1000 in slots:
+            continue
+        slots.add(h % 1000)
+        out.append(name)
+    return out
+
+
+def firstuse_scenario(c, tr, rounds):
+    """first use of a value under real parallelism: per round a value the rule has NEVER seen is requested by G goroutines at the
+    same instant (spin barrier; they race for the on-demand creation of the value's counter); the admitted entries are held
+    (probe with them live, exit all, probe: exactly thr admitted again) or exited by their own goroutines (probe).  Some rounds
+    are controls: the value was first requested sequentially / has entries live / the burst is repeated on a used value."""
+    rng = c.rng
+    names = fresh_names(rounds)
+    rules = {}
+    for res in rng.sample(['A', 'B'], rng.randint(1, 2)):
+        idx, key = layout(rng)
+        items = {v: rng.choice([1, 2, 3, 8]) for v in rng.sample(names, min(len(names), rounds // 6))}
+        rules[res] = dict(thr=rng.choice([1, 2, 3, 4, 5, 8, 8, 8, 10]), items=items, idx=idx, key=key, cap=0)
+    if rng.random() < 0.1:
+        rules[rng.choice(sorted(rules))]['thr'] = 0
+    s = [dict(op='new', tr=tr, ty=rng.choice(TYPES), rules=rules)]
+    nid, usedv, known = 0, [], set()
+
+    def ids(n):
+        nonlocal nid
+        nid += n
+        return list(range(nid - n + 1, nid + 1))
+
+    for v in names:
+        res = rng.choice(sorted(rules))
+        rl = rules[res]
+        x = rng.random()
+        if x < 0.04:
+            res, v = 'o', v                         # a resource without a rule: never limited
+        elif x < 0.08:
+            v = '-'                                 # the selected argument is missing: never limited
+        elif x < 0.16 and usedv:
+            res, v = rng.choice(usedv)              # control: the value has had its counter for a while
+            rl = rules[res]
+        if res in rules:
+            args, atts = shape(rng, rl['idx'], rl['key'], v)
+        else:
+            args, atts = [v], {}
+        if res in rules and v != '-' and rng.random() < 0.12:
+            # control: one or two sequential requests first (the counter exists, entries are live during the burst)
+            for i in ids(rng.randint(1, 2)):
+                a2, t2 = shape(rng, rl['idx'], rl['key'], v)
+                s.append(dict(op='req', id=i, res=res, args=a2, atts=t2, b=1))
+                known.add((res, v))
+        g = rng.choice([2, 3, 4, 4, 8, 8, 8, 8, 12, 16, 16, 24, 32])
+        hold = 1 if rng.random() < 0.7 else 0
+        s.append(dict(op='burst', ids=ids(g), res=res, args=args, atts=atts, b=rng.choice([1, 1, 1, 2, 3]), hold=hold,
+                      lag=rng.choice([0, 0, 1, 3]), fresh=int(res in rules and v != '-' and (res, v) not in known)))
+        known.add((res, v))
+        probe = None
+        if res in rules and v != '-':
+            usedv.append((res, v))
+            a2, t2 = shape(rng, rl['idx'], rl['key'], v)
+            probe = dict(op='probe', res=res, args=a2, atts=t2)
+        if probe and (not hold or rng.random() < 0.6):
+            s.append(probe)
+        s.append(dict(op='exitall', order=rng.choice(['fifo', 'lifo'])))
+        if probe:
+            s.append(probe)
+    return s
+
+
 # ------------------------------------------------------------------------------------------ pipeline
 def split_traces(lines):
     out, cur = {}, None
@@ -287,25 +378,30 @@ def run_and_validate(c, drv, scns, tag):
     return mism, tp
 
 
-def binding_selftest(c, tp, bad_traces):
-    """flip one recorded decision / probe count in each of the first good traces: every one must be rejected"""
+def binding_selftest(c, tp, bad_traces, first_use=False):
+    """flip one recorded decision / probe count in each of the first good traces: every one must be rejected
+    (first_use: one more admission than the threshold allows at a probe, or an admitted caller of a burst reported refused)"""
     traces = split_traces(read_ndjson(tp))
     out, want = [], set()
     for tr, lines in traces.items():
         if tr in bad_traces or len(want) >= 40:
             continue
-        cand = [e for e in lines if e['op'] in ('req', 'rec', 'probe')]
+        cand = [e for e in lines if e['op'] in ('req', 'rec', 'probe')] if not first_use else \
+               [e for e in lines if e['op'] == 'probe' or (e['op'] == 'burst' and any(o['ok'] for o in e['out']))]
         if not cand:
             continue
         e = c.rng.choice(cand)
         if e['op'] in ('req', 'rec'):
             e['ok'] = not e['ok']
+        elif e['op'] == 'burst':
+            c.rng.choice([o for o in e['out'] if o['ok']])['ok'] = False
         else:
             e['n'] += 1
         want.add(tr)
         out += lines
     if len(want) < 5:
-        c.inconclusive.append('binding self-test: fewer than 5 clean traces to corrupt')
+        if not (first_use and c.violations):
+            c.inconclusive.append('binding self-test%s: fewer than 5 clean traces to corrupt' % (' (first use)' if first_use else ''))
         return
     cp = os.path.join(c.scratch, 'corrupt.ndjson')
     write_ndjson(cp, out)
@@ -315,8 +411,8 @@ def binding_selftest(c, tp, bad_traces):
     got = {m[0] for m in mism}
     if got != want:
         raise MachineryError('binding self-test failed: corrupted traces %s, rejected %s' % (sorted(want), sorted(got)))
-    c.cov['binding_selftest'] = '%d corrupted traces, all rejected' % len(want)
-    c.log('binding self-test: %d corrupted traces, all rejected by HotParamConc_Trace' % len(want))
+    c.cov['binding_selftest' + ('_first_use' if first_use else '')] = '%d corrupted traces, all rejected' % len(want)
+    c.log('binding self-test%s: %d corrupted traces, all rejected by HotParamConc_Trace' % (' (first use)' if first_use else '', len(want)))
 
 
 def classify(exp, trace_lines):
@@ -342,6 +438,9 @@ def describe(exp, obs):
             'tv': 'TriggeredValue of the rejection is not live+1 = %s' % exp.get('tv'),
             'cap': 'more live entries for value %s than threshold + (overlapping callers - 1) = %s' % (exp.get('v'), exp.get('cap')),
             'live-args': 'a live entry no longer reads the arguments it was opened with (expected %s)' % json.dumps(exp.get('live')),
+            'burst': 'outcomes of %s simultaneous requests for value %s (threshold %s, %s live before) are not decisions of the admission '
+                     'predicate over any number of live entries the callers can have met: between %s and %s of them are admitted, a refusal '
+                     'reports live + 1' % (exp.get('g'), exp.get('v'), exp.get('thr'), exp.get('inflight'), exp.get('lo'), exp.get('hi')),
             'probe': 'admission count for value %s is not threshold - live = %s' % (exp.get('v'), exp.get('n')),
             'probe-tv': 'TriggeredValue of the first rejected probe is not %s' % exp.get('tv'),
             'panic': 'api.Entry panicked'}.get(why, str(why)) + '; observed ' + obs[:300]
@@ -367,11 +466,15 @@ def handle_mismatches(c, drv, scns, mism, tp, tag):
             s = by_tr[tr]
             rp = c.save_replay('%s-tr%d.ndjson' % (tag, tr), s)
             ok, key = 0, None
-            for i in range(2):      # confirm twice from the replay file in fresh processes
+            # confirm twice from the replay file in fresh processes; the free-running scenarios (real parallelism: whether the
+            # offending interleaving occurs is up to the scheduler) get up to 5 attempts for the two reproductions
+            for i in range(5 if tag in FREE_RUNNING else 2):
                 m2, tp2 = run_and_validate(c, drv, [read_ndjson(rp)], 'confirm%d' % i)
                 if m2:
                     ok += 1
                     key = classify(json.loads(m2[0][2]), read_ndjson(tp2))
+                if ok >= 2:
+                    break
             if ok < 2:
                 c.inconclusive.append('mismatch of %s trace %d did not reproduce (%d/2)' % (tag, tr, ok))
                 continue
@@ -398,7 +501,7 @@ def nontrivial(s):
             if k in seen:
                 return True
             seen.add(k)
-        if o['op'] == 'stress':
+        if o['op'] in ('stress', 'burst'):
             return True
     return False
 
@@ -461,6 +564,27 @@ def check(c, tier, replay):
         raise MachineryError('self-test failed: with K=2 the cap without slack must be exceeded in the model (%s)' % (r.violated or r.error))
     c.cov['spec_mutant_concurrent'] = ('DropZero=TRUE (cell removed when it returns to zero, record skips a missing cell) violates CounterOK for K=1 '
                                        'and passes for K=0; CappedStrict (no slack) is violated for K=2, Capped/PendCapped with slack K-1 hold')
+    # first use of a value: the counter is created on demand, Lookup -> Create -> Record are separate steps of up to K callers
+    fruns = [('MCRules4', 6, 4, 'MCRes1', 'MCValues2', 'MCOth0', 2), ('MCRules5', 5, 4, 'MCRes1', 'MCValues2', 'MCOth0', 3)] if not thorough else \
+            [('MCRules4', 8, 5, 'MCRes1', 'MCValues2', 'MCOth0', 2), ('MCRules5', 7, 5, 'MCRes1', 'MCValues2', 'MCOth0', 3),
+             ('MCRules6', 6, 5, 'MCRes', 'MCValues1', 'MCOth', 2), ('MCRules1', 4, 4, 'MCRes', 'MCValues', 'MCOth', 2)]
+    for rules, mo, ml, res, vals, oth, k in fruns:
+        r = c.model_check('HotParamConc_MC', cfg_text=mc_cfg(rules, mo, ml, res=res, values=vals, oth=oth, k=k, fresh=True), workers=8, timeout=2400)
+        if not r.completed:
+            c.inconclusive.append('HotParamConc.tla (Fresh, K=%d): %s violated for %s - the spec no longer describes a correct design' % (
+                k, r.violated, rules))
+    for inv in (('OneObject', 'CounterOK') if not thorough else ('OneObject', 'CounterOK', 'ZeroAfterDrain')):
+        r = c.tlc('HotParamConc_MC', cfg_text=mc_cfg('MCRules4', 5, 4, res='MCRes1', values='MCValues2', oth='MCOth0', k=2, fresh=True, both=True,
+                                                      inv=inv), workers=2, timeout=600, count=False)
+        if r.violated != inv:
+            raise MachineryError('vacuity self-test failed: the BothInstall=TRUE variant with K=2 does not violate %s (%s)' % (inv, r.violated or r.error))
+    r = c.tlc('HotParamConc_MC', cfg_text=mc_cfg('MCRules4', 5, 4, res='MCRes1', values='MCValues2', oth='MCOth0', k=1, fresh=True, both=True),
+              workers=4, timeout=600, count=False)
+    if not r.completed:
+        raise MachineryError('self-test failed: the BothInstall=TRUE variant is expected to pass when no two callers are between lookup and '
+                             'record (K=1): %s' % (r.violated or r.error))
+    c.cov['spec_mutant_first_use'] = ('BothInstall=TRUE (a caller that missed the lookup installs a counter without re-checking) violates OneObject '
+                                      'and CounterOK%s for K=2 and passes for K=1' % (', ZeroAfterDrain' if thorough else ''))
     c.cov['exhaustive'] = True
     # S2 ---------------------------------------------------------------------------------
     scns, tr = [], 0
@@ -539,20 +663,25 @@ def check(c, tier, replay):
     for g, n in ([(4, 200), (8, 400), (16, 300), (8, 1500)] if not thorough else [(4, 200), (8, 400), (16, 300), (8, 1500)] * 6 + [(32, 2000)] * 4):
         tr += 1
         st.append(stress_scenario(c, tr, g, n))
+    # first use under real parallelism (free-running: no yield point inside the parameter cache)
+    fu = []
+    for rounds in ([160] * 8 if not thorough else [200] * 40 + [400] * 10):
+        tr += 1
+        fu.append(firstuse_scenario(c, tr, rounds))
     # S3 + S4 ----------------------------------------------------------------------------
     selftested = False
-    for tag, group in (('tlc', scns), ('gated', gs), ('rand', rs), ('stress', st)):
+    for tag, group in (('tlc', scns), ('gated', gs), ('rand', rs), ('first', fu), ('stress', st)):
         for i in range(0, len(group), 3000):
             part = group[i:i + 3000]
             try:
                 mism, tp = run_and_validate(c, drv, part, '%s%d' % (tag, i))
             except MachineryError as e:
-                # the free-running goroutines can bring the process down on a tree whose defect was already reproduced twice from
+                # (batches first / stress) the free-running goroutines can bring the process down on a tree whose defect was already reproduced twice from
                 # replay files by the sequential / gated stages (e.g. a Go runtime "concurrent map" abort): the verdict stands
-                if tag != 'stress' or not c.violations:
+                if tag not in FREE_RUNNING or not c.violations:
                     raise
-                c.inconclusive.append('stress stage did not run to completion: %s' % str(e)[:300])
-                c.log('stress stage skipped after a harness failure (violations already confirmed): %s' % str(e)[:200])
+                c.inconclusive.append('%s stage did not run to completion: %s' % (tag, str(e)[:300]))
+                c.log('%s stage skipped after a harness failure (violations already confirmed): %s' % (tag, str(e)[:200]))
                 continue
             if not selftested and tag != 'stress':
                 binding_selftest(c, tp, {m[0] for m in mism})
@@ -561,13 +690,17 @@ def check(c, tier, replay):
             try:
                 handle_mismatches(c, drv, part, mism, tp, tag)
             except MachineryError as e:
-                if tag != 'stress' or not c.violations:
+                if tag not in FREE_RUNNING or not c.violations:
                     raise
-                c.inconclusive.append('confirmation of a stress mismatch did not run to completion: %s' % str(e)[:300])
-    allscn = scns + gs + rs + st
+                c.inconclusive.append('confirmation of a %s mismatch did not run to completion: %s' % (tag, str(e)[:300]))
+            if tag == 'first' and i == 0:
+                binding_selftest(c, tp, {m[0] for m in mism}, first_use=True)
+    allscn = scns + gs + rs + fu + st
     c.cov['gated_scenarios'] = '%d from TLC (schedule enumeration + transition cover of K-instances), %d seeded random' % (gated_tlc, len(gs) - gated_tlc)
     c.cov['distinct_nontrivial'] = len({json.dumps(s[1:], sort_keys=True) for s in allscn if nontrivial(s)})
     c.cov['stress_runs'] = len(st)
+    c.cov['first_use'] = '%d traces, %d bursts (G goroutines at a spin barrier request the same value), %d of them for a never-seen value' % (
+        len(fu), sum(1 for s in fu for o in s if o['op'] == 'burst'), sum(1 for s in fu for o in s if o['op'] == 'burst' and o.get('fresh')))
     c.cov['rule'] = ('scenarios = one per transition of the bounded HotParamConc spec (%d) + TLC random simulation + seeded random histories '
                      '+ many-goroutine stress runs, each ending in a drain and a post-drain admission probe per value; non-trivial = distinct '
                      'scenario in which some (resource, argument list) is requested at least twice (so the per-value count decides), or '
@@ -580,6 +713,9 @@ def check(c, tier, replay):
     c.assumptions += ['argument values are hashable (comparable Go values); unhashable arguments are the business of C01',
                       'ParamsMaxCapacity of a concurrency rule is never below the number of values in use (the statement has no capacity clause)',
                       'the many-goroutine runs are judged at quiescence only (conservation), not per decision',
+                      'first-use bursts are free-running (real parallelism, spin barrier): which interleavings of lookup / create / record '
+                      'occur is up to the Go scheduler; the outcomes of a burst are judged by the relation the design allows and the '
+                      'probes that follow (quiescence) exactly',
                       'concurrent admission is explored at the grain of the yield point chain.checked (between the rule checks and the '
                       'statistic slots): one caller step = check or record; finer interleavings inside a slot are not scheduled',
                       'when a rule has both an attachment key and an index, the key has priority and the index is the fall-back',
